@@ -114,6 +114,43 @@ func c12Scenarios(tier string) []*Scenario {
 			}
 		}
 	}
+	// a dependency that has completed (which released its dependent) and was then launched again by hand:
+	// both run when the shutdown begins; the dependent still goes first
+	for _, cond := range []string{cCompleted, cSucc} {
+		nodes := []GNode{{Name: "a", Beh: "ok"}, {Name: "b", Beh: "daemon", Deps: map[string]string{"a": cond}}}
+		yaml, procs, _ := buildGraph(nodes, nil)
+		procs["a"].Launches = [][]Action{{Exit(0)}, {}}
+		bOnly := func(w *World) bool {
+			na, nb := 0, 0
+			for _, f := range w.procs {
+				if f.Alive() && f.Name == "a" {
+					na++
+				}
+				if f.Alive() && f.Name == "b" {
+					nb++
+				}
+			}
+			return na == 0 && nb == 1
+		}
+		both := func(w *World) bool {
+			n := 0
+			for _, f := range w.procs {
+				if f.Alive() {
+					n++
+				}
+			}
+			return n == 2
+		}
+		sc := &Scenario{
+			ID:   "c12-rerun-" + condShort(cond),
+			YAML: yaml, Procs: procs, K: 1, Ordered: true, TickBudget: 1,
+			API:      [][]APICall{{{Op: "start", Name: "a", When: bOnly}, {Op: "shutdown", When: both}}},
+			MapSites: []string{"runningProcessesReverseDependencies", "shutDownInOrder", "ShutDownProject"},
+		}
+		deps := map[string][]string{"b": {"a"}}
+		sc.Check = func(w *World) []Violation { return c12Check(w, deps) }
+		scs = append(scs, sc)
+	}
 	return scs
 }
 
